@@ -160,10 +160,11 @@ def _hook(ev, args):
     sim = SIM
     if not sim.active:
         return
+    fs = sim.root + "/fs/"
     try:
         if ev == "os.rename":
             src = str(args[0])
-            if not src.startswith(sim.root):
+            if not src.startswith(fs):
                 return
             m = _pat_item.search(src)
             if m:
@@ -173,14 +174,14 @@ def _hook(ev, args):
                 return sim.gate(f"step:{m.group(1)}")
         elif ev in ("os.remove", "shutil.rmtree", "os.rmdir"):
             p = str(args[0])
-            if p.startswith(sim.root + "/"):
-                parts = p[len(sim.root) + 1 :].split("/")
+            if p.startswith(fs):
+                parts = p[len(fs) :].split("/")[1:]
                 for q in parts:
                     if q.isdigit():
                         return sim.gate(f"delete:{q}")
         elif ev == "os.mkdir":
             p = str(args[0])
-            if p.startswith(sim.root):
+            if p.startswith(fs):
                 m = _pat_step.search(p)
                 if m:
                     with sim.cv:
@@ -189,7 +190,7 @@ def _hook(ev, args):
             p = args[0]
             if isinstance(p, (str, bytes)) or hasattr(p, "__fspath__"):
                 p = str(p)
-                if p.endswith("/config.yaml") and p.startswith(sim.root) and args[1] and "w" in str(args[1]):
+                if p.endswith("/config.yaml") and p.startswith(fs) and args[1] and "w" in str(args[1]):
                     return sim.gate("config_write:" + str(len([x for x in sim.seen if x.startswith("config_write")])), blocking=False)
     except SimCrash:
         raise
